@@ -397,7 +397,9 @@ func CreateDB(dbName string) error {
 		return ErrDBExists
 	}
 
-	fs, err := newFileStore(path, true)
+	// the store that sets the database up is closed (and with that flushed)
+	// when CreateDB returns: it needs no periodic flush
+	fs, err := newFileStore(path, false)
 	if err != nil {
 		return err
 	}
